@@ -57,8 +57,9 @@ Definition law_report (q : list (Z * Z)) (cfg : list Z) (annot : option (list Z)
   match q with
   | [] => match ev with None => true | Some _ => false end
   | _ =>
-    if Nat.leb (length q) 10 &&
-       forallb (fun s => zin 0 max_alloc (fst s) && zin 0 max_alloc (snd s)) q
+    (* the queue never holds more than ten samples *)
+    Nat.leb (length q) 10 &&
+    if forallb (fun s => zin 0 max_alloc (fst s) && zin 0 max_alloc (snd s)) q
     then match ev with
          | None => false
          | Some (c, m) =>
